@@ -130,10 +130,25 @@ func (bp BundlePart) Load() (b bpv7.Bundle, err error) {
 }
 
 // calcExpirationDate for a Bundle.
+//
+// A Bundle from a source without a clock has a zero creation time and carries a Bundle Age Block instead. Its
+// lifetime is counted from now, reduced by the age it has already accumulated; adding the lifetime to the zero
+// creation time (the DTN epoch) would let it expire at once.
 func calcExpirationDate(b bpv7.Bundle) time.Time {
-	// TODO: check Bundle Age Block
-	return b.PrimaryBlock.CreationTimestamp.DtnTime().Time().Add(
-		time.Duration(b.PrimaryBlock.Lifetime) * time.Millisecond)
+	lifetime := time.Duration(b.PrimaryBlock.Lifetime) * time.Millisecond
+
+	if b.PrimaryBlock.CreationTimestamp.IsZeroTime() {
+		var age time.Duration
+		if bab, err := b.ExtensionBlock(bpv7.ExtBlockTypeBundleAgeBlock); err == nil {
+			age = time.Duration(bab.Value.(*bpv7.BundleAgeBlock).Age()) * time.Millisecond
+		}
+		if age > lifetime {
+			age = lifetime
+		}
+		return time.Now().Add(lifetime - age)
+	}
+
+	return b.PrimaryBlock.CreationTimestamp.DtnTime().Time().Add(lifetime)
 }
 
 // bundlePartPath returns a path for a Bundle.
